@@ -449,6 +449,7 @@ impl World {
                 rids,
                 kvlen: self.kv.0.borrow().log.len(),
                 fault_pending: self.kv.0.borrow().fail_in > 0,
+                fault_in: self.kv.0.borrow().fail_in,
             }
         })
     }
@@ -1144,6 +1145,8 @@ pub struct View {
     pub rids: Vec<u64>,
     pub kvlen: usize,
     pub fault_pending: bool,
+    /// the n-th next store call fails (0 = none)
+    pub fault_in: u32,
 }
 
 pub fn make_cas() -> Rc<Vec<Ca>> {
